@@ -46,15 +46,8 @@
 #include <fcppt/options/right.hpp>
 #include <fcppt/options/short_name.hpp>
 #include <fcppt/options/switch.hpp>
-// NOTE (defect in the tree, worked around here, reported): fcppt/options/unit_fwd.hpp declares
-// `template <typename Label> class flag;` instead of `class unit;`, so no translation unit can include both
-// unit.hpp and flag.hpp / switch.hpp / unit_switch.hpp.  Pre-empt that header with the intended declaration.
-#define FCPPT_OPTIONS_UNIT_FWD_HPP_INCLUDED
-namespace fcppt::options
-{
-template <typename Label>
-class unit;
-}
+// (unit_fwd.hpp used to declare `class flag` instead of `class unit`, which made this include list uncompilable;
+// repaired in /repo, see known_findings.json - the real header is used again.)
 #include <fcppt/options/unit.hpp>
 #include <fcppt/options/unit_switch.hpp>
 #include <fcppt/record/get.hpp>
